@@ -1174,12 +1174,14 @@ theorem serverRole_keepsPot (H : Hs) (tok : Nat) (tt : Option Nat) : (serverRole
       simp only
       split
       · exact ⟨by simp [fired], hd⟩
-      · have hd1 : Direct0 u { c with token := tok, key := some (H.serverReply b tok).1, status := .connecting } := hd
-        have h1 := pot_sendType u { c with token := tok, key := some (H.serverReply b tok).1, status := .connecting } .serverHello (H.serverReply b tok).2 0 none
-        have hd2 := direct0_sendType u _ .serverHello (H.serverReply b tok).2 0 none hd1 (by intro h; cases h)
-        refine ⟨?_, hd2⟩
-        rw [h1]
-        simp [fired, isU, pot]
+      · split
+        · exact ⟨by simp [fired, pot], hd⟩
+        · have hd1 : Direct0 u { c with token := tok, key := some (H.serverReply b tok).1, status := .connecting } := hd
+          have h1 := pot_sendType u { c with token := tok, key := some (H.serverReply b tok).1, status := .connecting } .serverHello (H.serverReply b tok).2 0 none
+          have hd2 := direct0_sendType u _ .serverHello (H.serverReply b tok).2 0 none hd1 (by intro h; cases h)
+          refine ⟨?_, hd2⟩
+          rw [h1]
+          simp [fired, isU, pot]
   · intro u c t b hd
     simp only [serverRole, serverChallenge]
     cases H.parseChallenge b with
